@@ -85,6 +85,7 @@ type adapter struct {
 	noParallel   bool     // skip the parallel-session run (expensive protocols)
 	first        []string // fields whose value flips are scheduled first (small quotas)
 	thoroughOnly bool     // too expensive for the quick tier
+	perIndex     bool     // strata keep the array indices (every component of a short vector is sampled)
 	// rank, when set, may give a stratum a priority prefix (sorted before everything else, in
 	// string order); "" = the default order
 	rank func(m *mutation) string
@@ -228,6 +229,11 @@ func adapters(tier string) []*adapter {
 		{name: "boldyreva", modelled: true, run: func(seed int64, label map[sharing.ID]string, hook drive.Hook) *outcome {
 			return runBls(seed, label, hook, []sharing.ID{1, 2}) // minimal quorum: an unusable partial signature cannot be made up for
 		}},
+		// proof-of-possession mode over a CNF structure (any 2 of 3 with TWO share components per holder):
+		// every component of sigma and of the proof-of-possession vector is an input of the aggregator
+		{name: "boldyreva-pop", modelled: true, run: func(seed int64, label map[sharing.ID]string, hook drive.Hook) *outcome {
+			return runBlsMode(seed, label, hook, []sharing.ID{1, 2}, "N:1|2|3", "pop")
+		}, perIndex: true},
 		{name: "boldyreva-3", run: func(seed int64, label map[sharing.ID]string, hook drive.Hook) *outcome {
 			return runBls(seed, label, hook, parties) // redundant quorum: the others may still reach the threshold
 		}},
@@ -591,9 +597,13 @@ func runCanetti(seed int64, label map[sharing.ID]string, hook drive.Hook) *outco
 // ---- boldyreva (threshold BLS, one round + aggregator) ---------------------------------
 
 func runBls(seed int64, label map[sharing.ID]string, hook drive.Hook, quorum []sharing.ID) *outcome {
+	return runBlsMode(seed, label, hook, quorum, policy, "basic")
+}
+
+func runBlsMode(seed int64, label map[sharing.ID]string, hook drive.Hook, quorum []sharing.ID, pol, mode string) *outcome {
 	c := common(seed, label, hook)
 	c.Quorum = quorum
-	res := dbls.RunFull(dbls.Config{Common: c, Policy: policy, KeySize: "short", Mode: "basic"})
+	res := dbls.RunFull(dbls.Config{Common: c, Policy: pol, KeySize: "short", Mode: mode})
 	o := &outcome{tr: res.Trace, ids: res.Quorum, agg: true, aggRound: 1, setupErr: res.SetupErr}
 	o.judge = func(dev sharing.ID) (bad []finding, returned []sharing.ID) {
 		if res.Sig == nil {
@@ -609,6 +619,15 @@ func runBls(seed int64, label map[sharing.ID]string, hook drive.Hook, quorum []s
 		// BLS signatures are unique: the only valid signature is x·H(m)
 		if res.Predicted != nil && string(res.Predicted) != string(res.Sig) {
 			bad = append(bad, finding{"bad-signature-returned", "the aggregator returned a signature different from x·H(m): " + res.Trace.Outputs[0]})
+		}
+		// proof-of-possession mode: the returned proof of possession is the (unique) x·H_pop(pk)
+		if mode == "pop" {
+			if res.Pop == nil || res.PopPairing != "ok" {
+				bad = append(bad, finding{"bad-signature-returned", "the aggregator returned a signature whose proof of possession fails e(pk,H_pop(pk)) = e(g,pop): " + res.Trace.Outputs[0]})
+			}
+			if res.PredictedPop != nil && string(res.PredictedPop) != string(res.Pop) {
+				bad = append(bad, finding{"bad-signature-returned", "the aggregator returned a proof of possession different from x·H_pop(pk): " + res.Trace.Outputs[0]})
+			}
 		}
 		return bad, returned
 	}
